@@ -18,7 +18,7 @@ for s in $seeds; do
     echo "SELFTEST $s: patch does not apply"; rc=1; rm -rf $scr; continue
   fi
   tmpv=$(mktemp -d /tmp/govc-selftest-v.XXXXXX)
-  cp -r /verif/properties.map.json /verif/known_findings.jsonl /verif/bounded /verif/contracts $tmpv/ 2>/dev/null
+  cp -r /verif/properties.map.json /verif/known_findings.jsonl /verif/bounded /verif/witness /verif/contracts $tmpv/ 2>/dev/null
   out=$(/verif/bin/govc -repo $scr -verif $tmpv -property $prop -tier quick 2>&1)
   expect=$(python3 -c "import json; print(json.load(open('seeded/$s/meta.json')).get('caught', True))")
   if [ "$expect" = "False" ]; then
